@@ -26,6 +26,10 @@ pub trait Corp: CandidType + for<'de> Deserialize<'de> + Sized + 'static {
     }
     /// iteration order of the Rust value is not deterministic (hash maps): re-encoding may permute
     const HASHY: bool = false;
+    /// `DataSize::data_size` of the Rust value an untyped value of this type would decode to
+    fn data_size_of(_v: &IDLValue) -> usize {
+        0
+    }
 }
 
 fn named(s: &str) -> Label {
@@ -57,17 +61,50 @@ macro_rules! prim {
     };
 }
 prim!(bool, |r| r.chance(1, 2), |v| IDLValue::Bool(*v));
-prim!(u8, |r| r.next() as u8, |v| IDLValue::Nat8(*v));
+impl Corp for u8 {
+    fn arb(r: &mut Rng, _d: u32) -> Self {
+        r.next() as u8
+    }
+    fn idl(&self) -> IDLValue {
+        IDLValue::Nat8(*self)
+    }
+    fn data_size_of(_v: &IDLValue) -> usize {
+        1
+    }
+}
 prim!(u16, |r| r.next() as u16, |v| IDLValue::Nat16(*v));
 prim!(u32, |r| r.next() as u32, |v| IDLValue::Nat32(*v));
-prim!(u64, |r| edge64(r), |v| IDLValue::Nat64(*v));
+impl Corp for u64 {
+    fn arb(r: &mut Rng, _d: u32) -> Self {
+        edge64(r)
+    }
+    fn idl(&self) -> IDLValue {
+        IDLValue::Nat64(*self)
+    }
+    fn data_size_of(_v: &IDLValue) -> usize {
+        8
+    }
+}
 prim!(i8, |r| r.next() as i8, |v| IDLValue::Int8(*v));
 prim!(i16, |r| r.next() as i16, |v| IDLValue::Int16(*v));
 prim!(i32, |r| r.next() as i32, |v| IDLValue::Int32(*v));
 prim!(i64, |r| edge64(r) as i64, |v| IDLValue::Int64(*v));
 prim!(f32, |r| f32::from_bits(r.next() as u32), |v| IDLValue::Float32(*v));
 prim!(f64, |r| f64::from_bits(r.next()), |v| IDLValue::Float64(*v));
-prim!(String, |r| crate::gen::text(r), |v| IDLValue::Text(v.clone()));
+impl Corp for String {
+    fn arb(r: &mut Rng, _d: u32) -> Self {
+        crate::gen::text(r)
+    }
+    fn idl(&self) -> IDLValue {
+        IDLValue::Text(self.clone())
+    }
+    fn data_size_of(v: &IDLValue) -> usize {
+        match v {
+            IDLValue::Text(s) => s.len(),
+            _ => 0,
+        }
+    }
+}
 prim!((), |_r| (), |_v| IDLValue::Null);
 prim!(Reserved, |_r| Reserved, |_v| IDLValue::Reserved);
 prim!(Principal, |r| crate::gen::principal(r), |v| IDLValue::Principal(*v));
@@ -339,6 +376,58 @@ impl<T: Corp, E: Corp> Corp for Result<T, E> {
         }
     }
 }
+
+use candid::types::bounded_vec::{BoundedVec, UNBOUNDED};
+// `DataSize` is private to the crate: the bounded vectors are instantiated at concrete element types
+macro_rules! bounded {
+    ($l:expr, $s:expr, $e:expr, $t:ty) => {
+        impl Corp for BoundedVec<{ $l }, { $s }, { $e }, $t> {
+            fn arb(r: &mut Rng, d: u32) -> Self {
+                const L: usize = $l;
+                const S: usize = $s;
+                // lengths around the limit, also beyond it (the constructor does not check)
+                let around = if L != UNBOUNDED { L } else if S != UNBOUNDED { S / 4 + 1 } else { 3 };
+                let n = match r.below(4) {
+                    0 => around.saturating_sub(1),
+                    1 => around,
+                    2 => around + 1,
+                    _ => r.below(around as u64 + 3) as usize,
+                };
+                BoundedVec::new((0..n).map(|_| <$t>::arb(r, d)).collect())
+            }
+            fn idl(&self) -> IDLValue {
+                seq_idl::<$t>(self.get().iter().map(|x| x.idl()), std::marker::PhantomData)
+            }
+            /// exactly the vectors within the limits
+            fn host_ok(v: &IDLValue) -> bool {
+                const L: usize = $l;
+                const S: usize = $s;
+                const E: usize = $e;
+                let e = elems(v);
+                if e.len() > L {
+                    return false;
+                }
+                let mut total = 0usize;
+                for x in &e {
+                    let sz = <$t>::data_size_of(x);
+                    if sz > E {
+                        return false;
+                    }
+                    total += sz;
+                    if total > S {
+                        return false;
+                    }
+                }
+                true
+            }
+        }
+    };
+}
+bounded!(4, UNBOUNDED, UNBOUNDED, u8);
+bounded!(UNBOUNDED, 16, UNBOUNDED, u64);
+bounded!(UNBOUNDED, 10, 6, String);
+bounded!(3, 12, 5, String);
+bounded!(2, UNBOUNDED, 3, String);
 
 // ---------------------------------------------------------------------------------------- derived types
 
@@ -708,6 +797,15 @@ pub fn all() -> Vec<Entry> {
     v.push(entry!(Option<Shape>));
     v.push(entry!(List));
     v.push(entry!(Option<List>));
+    // the inner types of the recursive definitions themselves (their memo entries are created while the
+    // enclosing type is still being derived)
+    v.push(entry!(Option<Box<List>>));
+    v.push(entry!(Box<List>));
+    v.push(entry!(Vec<Forest>));
+    v.push(entry!(BTreeMap<String, Tree>));
+    v.push(entry!(Box<Tree>));
+    v.push(entry!(Option<Box<Shape>>));
+    v.push(entry!(Option<Box<Generic<String, u8>>>));
     v.push(entry!(Tree));
     v.push(entry!(Forest));
     v.push(entry!(Vec<Tree>));
@@ -726,5 +824,10 @@ pub fn all() -> Vec<Entry> {
     v.push(entry!(BTreeMap<u8, BTreeMap<String, Int>>));
     v.push(entry!(Vec<BTreeMap<Int, Nat>>));
     v.push(entry!(Result<Vec<Nat>, Shape>));
+    v.push(entry!(BoundedVec<4, UNBOUNDED, UNBOUNDED, u8>));
+    v.push(entry!(BoundedVec<UNBOUNDED, 16, UNBOUNDED, u64>));
+    v.push(entry!(BoundedVec<UNBOUNDED, 10, 6, String>));
+    v.push(entry!(BoundedVec<3, 12, 5, String>));
+    v.push(entry!(BoundedVec<2, UNBOUNDED, 3, String>));
     v
 }
